@@ -95,7 +95,23 @@ pub fn write_module(
         // You may think that this is inefficient. It probably is.
         // It's still probably faster than running `rustfmt`.
         match syn::parse_file(&raw_output) {
-            Ok(parsed_file) => prettyplease::unparse(&parsed_file),
+            // prettyplease panics on syntax it has no formatting for (e.g. a `const` without
+            // a value in a prologue); treat that like code that can't be parsed at all.
+            Ok(parsed_file) => match std::panic::catch_unwind(|| {
+                prettyplease::unparse(&parsed_file)
+            }) {
+                Ok(output) => output,
+                Err(_) => {
+                    error = Some(format!(
+                        concat!(
+                            "Could not pretty-print the generated Rust code for {}. The code has been emitted as-is.\n",
+                            "This may be due to a bug in Pyxis or an issue with one of your backend definitions."
+                        ),
+                        path.display()
+                    ));
+                    raw_output
+                }
+            },
             Err(err) => {
                 let lc = err.span().start();
                 error = Some(format!(
